@@ -57,6 +57,16 @@ func ruleC15(c *Ctx, r *Result) {
 	}
 	r.Floor("C15.1", 10)
 
+	ruleHeapCursor(c, r, "C15.5")
+	r.Floor("C15.5", 2)
+}
+
+// ruleHeapCursor (shared by C02, C05, C10, C15): what LoadFromFile restores as the heap's insert cursor comes from the
+// header's managed-object iterator offset alone, and only insert paths ever move the persistent cursor field.
+func ruleHeapCursor(c *Ctx, r *Result, rule string) {
+	fn := func(n string) *ssa.Function { return c.Fn(r, "structures.WritableFractalHeap."+n) }
+	H := "structures.WritableHeapHeader."
+	B := "structures.WritableDirectBlock."
 	// C15.5 cursor recovery
 	if lf := fn("LoadFromFile"); lf != nil {
 		const iter = "structures.FractalHeapHeader.ManagedObjIterOffset"
@@ -76,16 +86,30 @@ func ruleC15(c *Ctx, r *Result) {
 				}
 			}
 			if ok {
-				r.Hold("C15.5", c.Name(lf)+"#"+fs.Key, c.InstrPos(fs.In), "taken from "+iter)
+				r.Hold(rule, c.Name(lf)+"#"+fs.Key, c.InstrPos(fs.In), "taken from "+iter)
 			} else {
-				r.Viol("C15.5", c.Name(lf)+"#"+fs.Key+"#cursor-source", c.InstrPos(fs.In), "insert cursor must come from the header's managed-object iterator offset alone; value also/only depends on:"+bad)
+				r.Viol(rule, c.Name(lf)+"#"+fs.Key+"#cursor-source", c.InstrPos(fs.In), "insert cursor must come from the header's managed-object iterator offset alone; value also/only depends on:"+bad)
 			}
 		}
 		for _, k := range []string{B + "FreeOffset", H + "ManagedSpaceOffset"} {
 			if !found[k] {
-				r.Viol("C15.5", c.Name(lf)+"#"+k+"#not-restored", c.Pos(lf.Pos()), "LoadFromFile never sets this cursor field")
+				r.Viol(rule, c.Name(lf)+"#"+k+"#not-restored", c.Pos(lf.Pos()), "LoadFromFile never sets this cursor field")
 			}
 		}
 	}
-	r.Floor("C15.5", 2)
+	// who may move the persistent cursor
+	for _, f := range c.LibFuncs() {
+		for _, fs := range c.DirectFieldStores(f) {
+			if fs.Fn != f || fs.Key != H+"ManagedSpaceOffset" {
+				continue
+			}
+			switch c.Name(f) {
+			case "structures.WritableFractalHeap.insertViaDirect", "structures.WritableFractalHeap.insertViaIndirect",
+				"structures.WritableFractalHeap.LoadFromFile", "structures.NewWritableFractalHeap":
+				r.Hold(rule, c.Name(f)+"#moves-cursor", c.InstrPos(fs.In), "insert / load / constructor")
+			default:
+				r.Viol(rule, c.Name(f)+"#"+fs.Key+"#cursor-moved-outside-insert", c.InstrPos(fs.In), "the header's insert cursor is what LoadFromFile turns into the next insert position; only inserts may advance it (space freed by delete is never reused)")
+			}
+		}
+	}
 }
